@@ -1255,3 +1255,15 @@ package mcp
 //@   discipline-only
 //@   protects fields(MemoryEventStore.maxBytes), fields(MemoryEventStore.nBytes), fields(MemoryEventStore.store)
 //@   unpublished NewMemoryEventStore
+
+// canceller.Preempt (C04, receiver side): only notifications/cancelled cancels anything, and what is cancelled is the
+// request whose id the notification names (coerced by MakeID); every message is then passed on (ErrNotHandled).
+//@ func (*canceller).Preempt [C04]
+//@   track jsonrpc2.MakeID as coerce
+//@   ghostvar cancelled int = 0
+//@   on call go:Cancel: cancelled = cancelled + 1
+//@   requires c != nil && req != nil && c.conn != nil
+//@   modifies *
+//@   assert at call go:Cancel: @cancels-the-named-request req.Method == notificationCancelled && calls(coerce) == 1 && callResult(coerce, 1, 1) == nil && $1 == callResult(coerce, 1, 0) && $0 == c.conn
+//@   ensures @nothing-else-cancels old(req.Method) != notificationCancelled ==> cancelled == 0 && $result.1 == jsonrpc2.ErrNotHandled
+//@   ensures @one-cancellation-per-notice cancelled <= 1
